@@ -206,6 +206,7 @@ void runC08(const Scenario& sc, vf::Result& res) {
         }
         // quiescent operations between phases (the engine performs them only when no search runs)
         int q = (int)r.below(6);
+        if (tbResident && r.chance(0.4)) q = 5;
         if (q == 0) {
             tt.clear();
             S.registry.clear(); S.noMoveRegistry.clear(); S.moveBits.clear();
@@ -253,6 +254,18 @@ void runC08(const Scenario& sc, vf::Result& res) {
                 }
             } catch (...) {
             }
+        } else if (q == 5 && tbResident) {
+            // searches of roots the on-demand tablebase does not cover: the table stays installed (and its memory stays
+            // reserved) for a few of them and is released after more than four in a row
+            Position big = TextIO::readFEN(TextIO::startPosFEN);
+            RelaxedShared<S64> maxT;
+            maxT = -1;
+            int n = (int)r.range(1, 6);
+            for (int i = 0; i < n; i++) tt.updateTB(big, maxT);
+            int sc2;
+            tbResident = tt.probeDTM(tbRoot, 0, sc2);
+            res.counters["op_unsuitable_roots"] += n;
+            res.counters[tbResident ? "probe_table_kept_after_unsuitable_root" : "probe_table_released_after_unsuitable_roots"]++;
         } else if (q == 4) {
             // index sweep: all 2^16 values of the top bits x boundary low bits
             U64 lows[] = {0, 3, 4, 7, 0xFFFFULL, 0xFFFFFFFFULL, 0xFFFFFFFFFFFFULL, r.next() & 0xFFFFFFFFFFFFULL};
